@@ -281,6 +281,7 @@ func runResume(c *Ctx) error {
 	var cases []Case
 	n := c.Pick(150, 2500)
 	user := ""
+	c.Planned("resume-histories", n)
 	for i := 0; i < n; i++ {
 		security.ClearSessionCache()
 		ccache := security.NewSessionCache()
@@ -598,10 +599,13 @@ func runResume(c *Ctx) error {
 			c.Sample(map[string]any{"ops": ops, "real": real})
 		}
 		cases = append(cases, Case{Label: fmt.Sprintf("resume#%d", i), Ops: ops, Real: real})
+		c.Ran("resume-histories", 1)
 	}
 	security.ClearSessionCache()
 	return diffBatch(c, "sc", cases, nil)
 }
+
+const replayBound = 10 * time.Second
 
 // replayToServer feeds recorded client bytes to a fresh server connection; true = app data delivered.
 func replayToServer(rec []byte) bool { return replayToServerConf(nil, true, rec) }
@@ -609,7 +613,10 @@ func replayToServer(rec []byte) bool { return replayToServerConf(nil, true, rec)
 // replayToServerConf: the same against a server with the given own cache and authentication requirement.
 func replayToServerConf(own *security.SessionCache, requireAuth bool, rec []byte) bool {
 	ca, cb := bufpipe.Pair("10.0.0.1:1111", "10.0.0.2:9618")
-	ctx, cancel := context.WithTimeout(context.Background(), 300*time.Millisecond)
+	// event-driven: the recording is followed by EOF (CloseWrite below), so no read ever waits for a
+	// peer; the bound only ends a run that hangs for a reason of its own and must be generous -- a
+	// short one turns "accepted" into "refused" on a loaded machine and the replay oracle goes blind
+	ctx, cancel := context.WithTimeout(context.Background(), replayBound)
 	defer cancel()
 	defer ca.Close()
 	defer cb.Close()
@@ -633,7 +640,7 @@ func replayToServerConf(own *security.SessionCache, requireAuth bool, rec []byte
 // replayToClient lets a real client try to resume against a "server" that only replays recorded bytes.
 func replayToClient(ccache *security.SessionCache, rec []byte) bool {
 	ca, cb := bufpipe.Pair("10.0.0.1:1111", "10.0.0.2:9618")
-	ctx, cancel := context.WithTimeout(context.Background(), 300*time.Millisecond)
+	ctx, cancel := context.WithTimeout(context.Background(), replayBound) // see replayToServerConf
 	defer cancel()
 	defer ca.Close()
 	defer cb.Close()
